@@ -255,8 +255,10 @@ def directed(sid0, tol_us, xcfgs, grp0=1):
         # a collector that never answers: the small explicit per-attempt timeout ends the attempt, the next one succeeds
         add(exp, "hung-then-ok", [item(kind="tmpnet"), item(code=200)], atto_us=400_000, tick_us=400_000)
         # ... and with a retryable answer first and the elapsed-time limit ending the call
-        add(exp, "hung-until-limit", [item(code=503), item(kind="tmpnet"), item(kind="tmpnet"), item(kind="tmpnet")], atto_us=300_000,
-            maxel_us=450_000, tick_us=300_000)
+        # the elapsed-time limit counts from the call, including a slow first attempt
+        add(exp, "slow-first-attempt-exceeds-limit", [item(code=503, slow_us=300_000), item(code=200)], maxel_us=200_000)
+        add(exp, "hung-until-limit", [item(code=503), item(kind="tmpnet"), item(kind="tmpnet"), item(kind="tmpnet")], atto_us=400_000,
+            maxel_us=700_000, tick_us=400_000)
     for exp in EXPS["grpc"]:
         add(exp, "retryinfo-50ms", [item(code=14, ri=True, thr_us=50_000), item(code=0)],
             want={"valid": True, "attempts": 2, "err": False, "handled": 0, "clock": 1})
@@ -272,6 +274,7 @@ def directed(sid0, tol_us, xcfgs, grp0=1):
         add(exp, "cancel-in-flight", [item(kind="hold", stop="cancel")])
         add(exp, "shutdown-in-flight", [item(kind="hold", stop="shutdown")])
         # a collector that never answers: the small explicit export timeout ends the whole call
+        add(exp, "slow-first-attempt-exceeds-limit", [item(code=14, slow_us=300_000), item(code=0)], maxel_us=200_000)
         add(exp, "hung-call-timeout", [item(kind="hung")], cto_us=400_000, tick_us=200_000)
         add(exp, "retry-then-hung", [item(code=14), item(kind="hung")], cto_us=400_000, tick_us=200_000)
         # the export timeout also ends a long backoff wait
